@@ -246,7 +246,7 @@ end Pytask
 namespace Pytask
 namespace Engine
 
-def GoodOutcome (o : Outcome) : Prop := o = .success ∨ o = .skipUnchanged
+abbrev GoodOutcome (o : Outcome) : Prop := o = .success ∨ o = .skipUnchanged
 
 theorem protocol_reports_mono (F : BodyFn) (P : Project) (g : G) (cfg : Cfg) (s : Sess) (t : TaskSpec) :
     ∀ rep ∈ s.reports, rep ∈ (protocol F P g cfg s t).reports := by
@@ -350,6 +350,272 @@ theorem q_loop {F : BodyFn} {P : Project} {g : G} (hwf : WF P g) (hwf2 : WF2 P) 
 dependencies: the from-scratch fixpoint. -/
 theorem Q.allFresh {F : BodyFn} {P : Project} {g : G} {w : World} {A : Nat → Prop} (q : Q F P g w A)
     (hall : ∀ t ∈ P.tasks, A t.id) : ∀ t ∈ P.tasks, Fresh F w t := fun t ht => q.fresh t ht (hall t ht)
+
+end Engine
+end Pytask
+
+/-! ### all rows match after a successful build; such a world is quiet -/
+namespace Pytask
+namespace Engine
+
+/-- Later picks neither are, nor write into the neighbourhood of, tasks in `D` or earlier picks (a consequence of `C01_order` and
+of `_check_if_tasks_have_the_same_products`: a task whose product is a neighbour of `t'` is `t'` itself or an ancestor of it). -/
+def FrameOrdered (P : Project) (g : G) (D : List Nat) (picks : List Nat) : Prop :=
+  ∀ pre t post, picks = pre ++ t :: post → ∀ spec, Project.find? P t = some spec → ∀ t', (t' ∈ D ∨ t' ∈ pre) →
+    t' ≠ t ∧ ∀ p ∈ spec.prods, nv p ∉ neighbours g t' ∧ ∀ spec', Project.find? P t' = some spec' → spec'.src ≠ p
+
+theorem protocolSteps_avoid (F : BodyFn) (P : Project) (g : G) (cfg : Cfg) (s : Sess) (spec : TaskSpec) (t' : Nat)
+    (hne : t' ≠ spec.id)
+    (hp : ∀ p ∈ spec.prods, nv p ∉ neighbours g t' ∧ ∀ spec', Project.find? P t' = some spec' → spec'.src ≠ p) :
+    ∀ x ∈ protocolSteps F P g cfg s spec, StepAvoids P g t' x := by
+  intro x hx
+  unfold protocolSteps at hx
+  simp only [List.mem_append] at hx
+  rcases hx with hx | hx
+  · obtain ⟨pi, hpi, rfl⟩ := phaseSteps_mem F P g cfg s spec x hx
+    exact hp _ (mem_prods_of_mem_zipIdx hpi)
+  · obtain ⟨v, h, rfl⟩ := reportSteps_onlyRows P g cfg _ spec _ x hx
+    exact fun heq => hne heq.symm
+
+theorem rowsMatch_loop {F : BodyFn} {P : Project} {g : G} (hwf : WF P g)
+    (hbip : ∀ t, ∀ v ∈ neighbours g t, isTaskV v = true → v = tv t) (cfg : Cfg) :
+    ∀ (picks : List Nat) (so : Sorter) (s : Sess) (so' : Sorter) (s' : Sess) (D : List Nat),
+      (∀ t' ∈ D, RowsMatch P g s.w t') → buildLoop F P g cfg so s picks = .ok (so', s') →
+      (∀ rep ∈ s'.reports, GoodOutcome rep.2) → s'.crashed = false → FrameOrdered P g D picks →
+      ∀ t' ∈ D ++ picks, RowsMatch P g s'.w t'
+  | [], so, s, so', s', D, hD, h, _, _, _ => by
+    simp only [buildLoop, Except.ok.injEq, Prod.mk.injEq] at h
+    obtain ⟨_, rfl⟩ := h
+    simpa using hD
+  | t :: ts, so, s, so', s', D, hD, h, hgood, hcr, hfr => by
+    unfold buildLoop at h
+    split at h
+    · cases h
+    split at h
+    · cases h
+    split at h
+    · cases h
+    rename_i spec hfind
+    have hspec := mem_of_find? hfind
+    have hid : spec.id = t := find?_id hfind
+    have hout := protocol_raised_good F P g cfg s spec (hwf.noPersist spec hspec)
+      (fun rep hrep => hgood rep (buildLoop_reports_mono F P g cfg ts _ _ so' s' h rep hrep))
+    -- the protocol did not die in its row commits (else the loop could not have ended with `crashed = false`)
+    have hnc : (protocol F P g cfg s spec).crashed = false := by
+      cases hc : (protocol F P g cfg s spec).crashed
+      · rfl
+      · exfalso
+        cases ts with
+        | nil =>
+          simp only [buildLoop, Except.ok.injEq, Prod.mk.injEq] at h
+          obtain ⟨_, rfl⟩ := h
+          rw [hc] at hcr; cases hcr
+        | cons u us => unfold buildLoop at h; simp [hc] at h
+    -- rows of `spec` match after its protocol
+    have hms : RowsMatch P g (protocol F P g cfg s spec).w t := by
+      rcases hout with hr | hr
+      · have hok : (updateStates P g (runPhases F P g cfg s spec).2.w spec.id (neighbours g spec.id)).2 = true := by
+          cases hok : (updateStates P g (runPhases F P g cfg s spec).2.w spec.id (neighbours g spec.id)).2
+          · exfalso
+            have hdry := runPhases_none_not_dry F P g cfg s spec hr
+            unfold protocol at hnc
+            simp [hr, processReport, recordStates, hdry, hok] at hnc
+          · rfl
+        rw [← hid]; exact rowsMatch_after_protocol F P g cfg s spec hr hok
+      · obtain ⟨hm, hs⟩ := rowsMatch_of_skippedUnchanged F P g cfg s spec hr
+        have hw : (protocol F P g cfg s spec).w = s.w := by
+          unfold protocol
+          simp only [hr, hs, processReport]
+        rw [hw, ← hid]; exact hm
+    -- rows of the tasks in `D` still match
+    have hD' : ∀ t' ∈ D ++ [t], RowsMatch P g (protocol F P g cfg s spec).w t' := by
+      intro t' ht'
+      rcases List.mem_append.1 ht' with h1 | h1
+      · obtain ⟨hne, hp⟩ := hfr [] t ts rfl spec hfind t' (Or.inl h1)
+        rw [← applySteps_protocol]
+        exact rowsMatch_frame P g t' (hbip t') _ _ (protocolSteps_avoid F P g cfg s spec t' (by rw [hid]; exact hne) hp) (hD t' h1)
+      · rw [List.mem_singleton.1 h1]; exact hms
+    have hfr' : FrameOrdered P g (D ++ [t]) ts := by
+      intro pre t2 post hts spec2 hf2 t' ht'
+      apply hfr (t :: pre) t2 post (by rw [hts]; rfl) spec2 hf2 t'
+      rcases ht' with h1 | h1
+      · rcases List.mem_append.1 h1 with h2 | h2
+        · exact Or.inl h2
+        · exact Or.inr (by rw [List.mem_singleton.1 h2]; simp)
+      · exact Or.inr (List.mem_cons_of_mem _ h1)
+    have := rowsMatch_loop hwf hbip cfg ts _ _ so' s' (D ++ [t]) hD' h hgood hcr hfr'
+    intro t' ht'
+    apply this t'
+    simpa [List.append_assoc] using ht'
+
+/-- In a world in which every task's rows match, a non-forced build executes nothing and changes nothing. -/
+theorem quiet_loop {F : BodyFn} {P : Project} {g : G} (hwf : WF P g) (cfg : Cfg) (hforce : cfg.force = false) :
+    ∀ (picks : List Nat) (so : Sorter) (s : Sess) (so' : Sorter) (s' : Sess),
+      (∀ t ∈ P.tasks, RowsMatch P g s.w t.id) → buildLoop F P g cfg so s picks = .ok (so', s') →
+      s'.log = s.log ∧ s'.w = s.w
+  | [], so, s, so', s', _, h => by
+    simp only [buildLoop, Except.ok.injEq, Prod.mk.injEq] at h
+    obtain ⟨_, rfl⟩ := h
+    exact ⟨rfl, rfl⟩
+  | t :: ts, so, s, so', s', hm, h => by
+    unfold buildLoop at h
+    split at h
+    · cases h
+    split at h
+    · cases h
+    split at h
+    · cases h
+    rename_i spec hfind
+    have hspec := mem_of_find? hfind
+    obtain ⟨hs, hne⟩ := runPhases_rowsMatch F P g cfg s spec hforce (hm spec hspec)
+    have hnp := runPhases_ne_persisted F P g cfg s spec (hwf.noPersist spec hspec)
+    have hw : (protocol F P g cfg s spec).w = s.w ∧ (protocol F P g cfg s spec).log = s.log := by
+      unfold protocol
+      simp only []
+      rw [hs]
+      cases hr : (runPhases F P g cfg s spec).1 <;> simp only [processReport] <;>
+        first | exact absurd hr hne | exact absurd hr hnp | simp
+    have := quiet_loop hwf cfg hforce ts _ _ so' s' (by rw [hw.1]; exact hm) h
+    rw [hw.1, hw.2] at this
+    exact this
+
+end Engine
+end Pytask
+
+namespace Pytask
+namespace Engine
+
+theorem DataOrdered.mono {P : Project} {A B : Nat → Prop} {picks : List Nat} (h : ∀ x, A x → B x)
+    (hd : DataOrdered P A picks) : DataOrdered P B picks := by
+  intro pre t post hp spec hf u hu hdep
+  rcases hd pre t post hp spec hf u hu hdep with h1 | h1
+  · exact Or.inl (h _ h1)
+  · exact Or.inr h1
+
+end Engine
+end Pytask
+
+namespace Pytask
+namespace Engine
+
+/-- bipartite graphs: a decidable sufficient condition for `hbip` -/
+theorem bip_of_edges (g : G) (h : ∀ e ∈ g.edges, isTaskV e.1 ≠ isTaskV e.2) :
+    ∀ t, ∀ v ∈ neighbours g t, isTaskV v = true → v = tv t := by
+  intro t v hv hT
+  have htv : isTaskV (tv t) = true := by
+    unfold isTaskV tv
+    have : (2 * t) % 2 = 0 := by omega
+    simp [this]
+  unfold neighbours at hv
+  simp only [List.mem_append, List.mem_singleton] at hv
+  rcases hv with (hv | hv) | hv
+  · exfalso
+    unfold G.preds at hv
+    simp only [List.mem_map, List.mem_filter] at hv
+    obtain ⟨e, ⟨he, he2⟩, rfl⟩ := hv
+    have h2 : e.2 = tv t := by simpa using he2
+    exact h e he (by rw [hT, h2, htv])
+  · exact hv
+  · exfalso
+    unfold G.succs at hv
+    simp only [List.mem_map, List.mem_filter] at hv
+    obtain ⟨e, ⟨he, he1⟩, rfl⟩ := hv
+    have h1 : e.1 = tv t := by simpa using he1
+    exact h e he (by rw [hT, h1, htv])
+
+/-! data for the non-vacuity example of `C05_converge_partial` -/
+theorem c05_wf2 : WF2 c05P where
+  uniq := by
+    intro t ht u hu p hp hq
+    simp [c05P] at ht hu
+    rcases ht with rfl | rfl <;> rcases hu with rfl | rfl <;> simp_all
+  srcNotProd := by
+    intro t ht u hu
+    simp [c05P] at ht hu
+    rcases ht with rfl | rfl <;> rcases hu with rfl | rfl <;> simp
+
+theorem c05_bip : ∀ t, ∀ v ∈ neighbours c05G t, isTaskV v = true → v = tv t :=
+  bip_of_edges c05G (by decide)
+
+def c05So : Sorter :=
+  match Sorter.fromDag c05G isTaskV (prioFn c05P) with
+  | .ok so => so
+  | .error _ => ⟨[], [], fun _ => 0, [], []⟩
+
+def c05T0 : TaskSpec := { id := 0, src := 90, deps := [10], prods := [20, 21], after := [] }
+def c05T1 : TaskSpec := { id := 1, src := 90, deps := [20], prods := [22], after := [] }
+
+theorem c05_find0 {spec : TaskSpec} (h : Project.find? c05P 0 = some spec) : spec = c05T0 := by
+  have : Project.find? c05P 0 = some c05T0 := rfl
+  rw [this] at h; exact (Option.some.inj h).symm
+
+theorem c05_find1 {spec : TaskSpec} (h : Project.find? c05P 1 = some spec) : spec = c05T1 := by
+  have : Project.find? c05P 1 = some c05T1 := rfl
+  rw [this] at h; exact (Option.some.inj h).symm
+
+theorem c05_ord1 : DataOrdered c05P (fun _ => False) [0] := by
+  intro pre t post hp spec hf u hu hd
+  match pre, hp with
+  | [], hp =>
+    simp at hp
+    obtain ⟨rfl, rfl⟩ := hp
+    have := c05_find0 hf
+    subst this
+    simp [c05P, c05T0] at hu hd
+    rcases hu with rfl | rfl <;> simp at hd
+  | a :: rest, hp =>
+    exfalso
+    have := congrArg List.length hp
+    simp at this
+
+theorem c05_ord2 : DataOrdered c05P (fun _ => False) [0, 1] := by
+  intro pre t post hp spec hf u hu hd
+  match pre, hp with
+  | [], hp =>
+    simp at hp
+    obtain ⟨rfl, rfl⟩ := hp
+    have := c05_find0 hf
+    subst this
+    simp [c05P, c05T0] at hu hd
+    rcases hu with rfl | rfl <;> simp at hd
+  | [a], hp =>
+    simp at hp
+    obtain ⟨rfl, rfl, rfl⟩ := hp
+    have := c05_find1 hf
+    subst this
+    simp [c05P, c05T1] at hu hd
+    rcases hu with rfl | rfl
+    · right; simp
+    · simp at hd
+  | a :: b :: rest, hp =>
+    exfalso
+    have := congrArg List.length hp
+    simp at this
+
+theorem c05_frame2 : FrameOrdered c05P c05G [] [0, 1] := by
+  intro pre t post hp spec hf t' ht'
+  match pre, hp with
+  | [], hp => simp at ht'
+  | [a], hp =>
+    simp at hp
+    obtain ⟨rfl, rfl, rfl⟩ := hp
+    have := c05_find1 hf
+    subst this
+    simp at ht'
+    subst ht'
+    refine ⟨by decide, ?_⟩
+    intro p hp
+    simp [c05T1] at hp
+    subst hp
+    refine ⟨by decide, ?_⟩
+    intro spec' hf'
+    have := c05_find0 hf'
+    subst this
+    decide
+  | a :: b :: rest, hp =>
+    exfalso
+    have := congrArg List.length hp
+    simp at this
 
 end Engine
 end Pytask
